@@ -29,6 +29,10 @@ func TestMain(m *testing.M) { kit.Main(m, "C07") }
 //	idle-after      one exchange completed, then idle
 //	head-fresh      part of a request head sent
 //	head-after      one exchange completed, then part of a request head
+//	head-pipelined  a complete request and part of the next head in one segment;
+//	                the first is answered, the partial head sits in the proxy's buffer
+//	uploading       the request head and half of its body were sent, the round
+//	                trip is waiting for the rest of the body
 //	reqmod          inside the request modifier
 //	roundtrip       inside the upstream round trip
 //	resmod          inside the response modifier
@@ -93,7 +97,7 @@ func (c *trackConn) Close() (err error) {
 	return err
 }
 
-var inflight = map[string]bool{"reqmod": true, "roundtrip": true, "resmod": true, "writing": true}
+var inflight = map[string]bool{"reqmod": true, "roundtrip": true, "resmod": true, "writing": true, "uploading": true}
 
 const bigBody = 32 << 20
 
@@ -216,6 +220,22 @@ func runOnce(c Case, T time.Duration) (v kit.Verdict) {
 	defer origin.Close()
 	dialer := &netkit.Dialer{Route: func(string) string { return origin.Addr }}
 	g := newGates()
+	origin.Early = func(r *netkit.ReqLog) *netkit.Script {
+		// the origin has the head of an upload whose body is still on its way
+		id := r.Header.Get("X-Verif-Id")
+		g.mu.Lock()
+		arr := g.arrived[id]
+		up := g.phase[id] == "uploading"
+		g.mu.Unlock()
+		if up && arr != nil {
+			select {
+			case <-arr:
+			default:
+				close(arr)
+			}
+		}
+		return nil
+	}
 	p := martian.NewProxy()
 	p.SetTimeout(60 * time.Second)
 	p.SetDial(dialer.Dial)
@@ -270,6 +290,22 @@ func runOnce(c Case, T time.Duration) (v kit.Verdict) {
 			}
 		}
 		switch {
+		case cn.Point == "head-pipelined":
+			id := fmt.Sprintf("warm-%d", i)
+			cl.Write([]byte(request(id) + "GET http://origin.test/partial HTTP/1.1\r\nHost: origin.te"))
+			res, _, err := cl.ReadResponse("GET", T)
+			if err != nil || res.Status != 200 || !bytes.Equal(res.Body, bodyFor(id)) {
+				return kit.Failf("C07/harness/warm-up-exchange-failed-timeout", "connection %d: %v %+v", i, err, res)
+			}
+		case cn.Point == "uploading":
+			k.id = fmt.Sprintf("up-%d", i)
+			g.add(k.id, "uploading")
+			cl.Write([]byte(fmt.Sprintf("POST http://origin.test/%s HTTP/1.1\r\nHost: origin.test\r\nX-Verif-Id: %s\r\nContent-Length: %d\r\n\r\n%s", k.id, k.id, len(uploadBody), uploadBody[:len(uploadBody)/2])))
+			select {
+			case <-g.arrived[k.id]:
+			case <-time.After(T):
+				return kit.Failf("C07/harness/exchange-not-parked-timeout", "connection %d: the origin never saw the head of the upload", i)
+			}
 		case strings.HasPrefix(cn.Point, "head-"):
 			cl.Write([]byte("GET http://origin.test/partial HTTP/1.1\r\nHost: origin.te"))
 		case inflight[cn.Point]:
@@ -345,12 +381,18 @@ func runOnce(c Case, T time.Duration) (v kit.Verdict) {
 			v.Addf("C07/shutdown/"+k.point+"/close-returned-with-exchange-in-flight", "Close() returned while the exchange on connection %d was still parked at %s", idx, k.point)
 		default:
 		}
-		if k.point != "writing" {
+		if k.point == "uploading" {
+			k.cl.Write([]byte(uploadBody[len(uploadBody)/2:]))
+		} else if k.point != "writing" {
 			g.mu.Lock()
 			close(g.release[k.id])
 			g.mu.Unlock()
 		}
-		res, _, err := k.cl.ReadResponse("GET", T)
+		method := "GET"
+		if k.point == "uploading" {
+			method = "POST"
+		}
+		res, _, err := k.cl.ReadResponse(method, T)
 		k.res, k.resErr = res, err
 		pre := "C07/exchange/" + k.point + "/"
 		switch {
@@ -398,7 +440,7 @@ func runOnce(c Case, T time.Duration) (v kit.Verdict) {
 	// Every connection whose handler had demonstrably started before shutdown
 	// was requested must have been closed by the moment Close() returned.
 	for i, k := range clients {
-		if !(inflight[k.point] || strings.HasSuffix(k.point, "-after")) {
+		if !(inflight[k.point] || strings.HasSuffix(k.point, "-after") || k.point == "head-pipelined") {
 			continue
 		}
 		if !closedAtReturn[k.cl.Conn.LocalAddr().String()] {
@@ -464,7 +506,9 @@ var _ = io.EOF
 
 // ---------------------------------------------------------------- generator
 
-var points = []string{"idle-fresh", "idle-after", "head-fresh", "head-after", "reqmod", "roundtrip", "resmod", "writing"}
+var points = []string{"idle-fresh", "idle-after", "head-fresh", "head-after", "head-pipelined", "reqmod", "roundtrip", "uploading", "resmod", "writing"}
+
+var uploadBody = string(kit.Text(5, 3000))
 
 func finish(c *Case, perm func(n int) []int) {
 	var parked []int
@@ -485,7 +529,7 @@ func genCase(t *rapid.T) Case {
 	var c Case
 	big := 0
 	for i := 0; i < n; i++ {
-		pt := rapid.SampledFrom([]string{"idle-fresh", "idle-after", "head-fresh", "head-after", "reqmod", "reqmod", "roundtrip", "roundtrip", "resmod", "resmod", "writing"}).Draw(t, "point")
+		pt := rapid.SampledFrom([]string{"idle-fresh", "idle-after", "head-fresh", "head-after", "head-pipelined", "reqmod", "reqmod", "roundtrip", "roundtrip", "uploading", "uploading", "resmod", "resmod", "writing"}).Draw(t, "point")
 		if pt == "writing" {
 			big++
 			if big > 1 {
@@ -546,7 +590,7 @@ func classes(c Case) []string {
 	return out
 }
 
-const rule = "1..3 connections each driven to one of 8 parking points (idle or mid-head, fresh or after a completed exchange; inside the request modifier, the round trip, the response modifier; response being written to a client that is not reading), then Close(), then the parked exchanges released in a drawn order, with new connections attempted during and after shutdown; non-trivial = at least one in-flight exchange or two different points"
+const rule = "1..3 connections each driven to one of 10 parking points (idle or mid-head, fresh or after a completed exchange; inside the request modifier, the round trip, the response modifier; response being written to a client that is not reading), then Close(), then the parked exchanges released in a drawn order, with new connections attempted during and after shutdown; non-trivial = at least one in-flight exchange or two different points"
 
 var propShutdown = &kit.Prop[Case]{ID: "C07", Name: "shutdown", Rule: "rapid-drawn: " + rule,
 	Gen: genCase, Run: run, NonTrivial: nontrivial, Classes: classes, Journal: true,
@@ -564,7 +608,7 @@ func TestShutdown(t *testing.T) {
 func TestTwoConnectionPlacements(t *testing.T) {
 	pts := points
 	if !kit.Thorough() {
-		pts = []string{"idle-after", "head-after", "reqmod", "roundtrip", "resmod"}
+		pts = []string{"idle-after", "head-pipelined", "reqmod", "uploading", "resmod"}
 	}
 	propPairs.Enumerate(t, func(yield func(Case) bool) {
 		for _, a := range pts {
